@@ -23,7 +23,7 @@ func init() {
 			"U sibling uniformity of every kind-specialised family in binary_*.go, unary_ops.go, identifier.go, util.go (a closure that differs from its same-category siblings in operator, operand, type, depth or accessor is reported); " +
 			"A3 the frame on which a variable's slot is read equals the depth label of its arm (0,1,2,file,top, upn in the general arm) and A4 Ints/Vals storage matches the IntBind guard; A2 reflect accessor category equals the category of the conversion target; " +
 			"A5 the dispatch table BinaryExpr1/UnaryExpr is injective and complete over Go's 19 binary operators and every closure of a compile function applies exactly the Go operator of the arm that dispatches to it; A6 left operand from the left expression, right from the right; " +
-			"A7 every constant shortcut (x+0, x*1, x*0, x&-1 ...) is an identity of Go semantics for every operand category that reaches it (table justified by IEEE-754 / two's complement); A8 every power-of-two strength reduction matches a proven shape, signed shapes only in signed arms, negation only for negative divisors, shift = integerLen(y)-1 under isPowerOfTwo(y); " +
+			"A7 every constant shortcut (x+0, x*1, x*0, x&-1 ...) is an identity of Go semantics for every operand category that reaches it (table justified by IEEE-754 / two's complement; conjuncts on reflect.Category restrict the categories that reach a shortcut; a compile-time rejection such as 'division by zero' is judged like a rewrite: exact for integers only — found F36; isLiteralNumber(c, -1) on an unsigned operand means all bits set, so x / c is not -x — found F35); A8 every power-of-two strength reduction matches a proven shape, signed shapes only in signed arms, negation only for negative divisors, shift = integerLen(y)-1 under isPowerOfTwo(y); " +
 			"G1 signed shift counts are converted to uint64 only after the negative-count panic; D1 constants are folded iff both operands are constant. " +
 			"The oracle for each closure is Go's own operator on the labelled type (closure bodies are Go expressions over typed operands). " +
 			"Not decided: typing of mixed operands (toSameFuncType / prepareShift), EvalConst itself, comparisons of non-basic types, values computed by reflect or go/constant.",
@@ -52,6 +52,8 @@ func init() {
 			c.Floor("A8-pow2", 40)
 		}, func(c *Ctx) { ruleAccessorFiles(c, "fast", c01Files, "A2-accessor") }},
 		Mutants: []Mutant{
+			{Name: "quo-by-allones-unsigned-negated", File: "fast/binary_ops.go", Old: "} else if isLiteralNumber(ye.Value, -1) && reflect.Category(xe.Type.Kind()) != xr.Uint {", New: "} else if isLiteralNumber(ye.Value, -1) {"},
+			{Name: "float-division-by-constant-zero-rejected", File: "fast/binary_ops.go", Old: "if isLiteralNumber(y, 0) && reflect.IsCategory(xe.Type.Kind(), xr.Int, xr.Uint) {", New: "if isLiteralNumber(y, 0) {"},
 			{Name: "int16-sub-becomes-add", File: "fast/binary_ops.go", Old: "x := x.(func(*Env) int16)\n\t\t\ty := y.(func(*Env) int16)\n\t\t\tfun = func(env *Env) int16 {\n\t\t\t\treturn x(env) - y(env)", New: "x := x.(func(*Env) int16)\n\t\t\ty := y.(func(*Env) int16)\n\t\t\tfun = func(env *Env) int16 {\n\t\t\t\treturn x(env) + y(env)", Canary: true},
 			{Name: "string-add-operands-swapped", File: "fast/binary_ops.go", Old: "fun = func(env *Env) string {\n\t\t\t\treturn x(env) + y(env)", New: "fun = func(env *Env) string {\n\t\t\t\treturn y(env) + x(env)"},
 			{Name: "float32-depth2-reads-depth1", File: "fast/identifier.go", Old: "return *(*float32)(unsafe.Pointer(&env.Outer.Outer.Ints[idx]))", New: "return *(*float32)(unsafe.Pointer(&env.Outer.Ints[idx]))", Nth: 1, Canary: true},
@@ -84,6 +86,8 @@ func c02Rules(c *Ctx) {
 	ruleOperatorAnchor(c, "fast", opOf, "A5-operator", "A6-order", nil)
 	ext := extendOps(c, "fast", opOf)
 	ruleShortcuts(c, "fast", ext, "A7-shortcut", nil)
+	ruleIdentityStore(c, "A7s-identity-store")
+	ruleAbsentMapKey(c, "M1-absent-key", []string{"place_ops.go", "place_shifts.go", "place_set.go", "place_set_value.go", "assignment.go"})
 	helpers := map[string]string{}
 	for fn, op := range ext {
 		if _, direct := opOf[fn]; !direct {
@@ -112,13 +116,17 @@ func init() {
 		ID:    "C02",
 		Title: "Assignments and compound assignments on every kind of place behave as in Go",
 		Explanation: "Decided, exhaustively over the ~4 000 statement closures of var_*.go / place_*.go / assignment.go: U sibling uniformity per kind-family; A3 slot accessed on the frame its depth arm names; A4 Ints/Vals storage matches the IntBind guard and every function that addresses a variable's unboxed slot is entered only for IntBind variables (in-function arm, early return, or every call site under a class test); A2 accessor category; " +
-			"A5 setVar/setPlace dispatch tables injective and complete (every specialisation with the family signature is wired) and each closure applies exactly the Go operator of its arm; A6 right operand from the value parameter, left from the place; A7 constant shortcuts are identities for every category that reaches them; A8 power-of-two division shapes; " +
+			"A5 setVar/setPlace dispatch tables injective and complete (every specialisation with the family signature is wired) and each closure applies exactly the Go operator of its arm; A6 right operand from the value parameter, left from the place; A7 constant shortcuts are identities for every category that reaches them (including delegations such as x /= -1 -> x *= -1 and compile-time rejections); A7s an identity shortcut on a map element still evaluates map and key once and writes the element back (found F41); M1 no read of a map element through reflect uses the result of MapIndex without an IsValid test (found F40); A8 power-of-two division shapes; " +
 			"S1 every statement closure returns Code[IP] of the environment it returns after exactly one advance of IP (or Code[t] after IP = t) on every path; E2 every captured operand closure (place, map key, right-hand side) is evaluated at most once per path; " +
 			"P1-P4 two-phase multiple assignment: left operands, then right-hand expressions (copied with dup), then stores, map keys copied, two-place fast path only without map keys; I1 ++/-- compile as += / -= the constant one. " +
 			"Not decided: which specialisation is selected for a given program (Place construction), map-element read-modify-write inside reflect, exotic evaluation-order mixes beyond the call-order rule.",
 		Assumptions: []string{"Go operator semantics on basic types", "computation at the category's widest type followed by a truncating store equals computation at the narrow type (two's complement)", "reflect Set*/MapIndex/SetMapIndex as documented"},
 		Rules:       []func(*Ctx){c02Rules},
 		Mutants: []Mutant{
+			{Name: "varquo-allones-delegates-to-mul", File: "fast/var_ops.go", Old: "} else if isLiteralNumber(val, -1) && reflect.Category(va.Type.Kind()) != xr.Uint {", New: "} else if isLiteralNumber(val, -1) {"},
+			{Name: "identity-shortcut-skips-map-store", File: "fast/assignment.go", Old: "\t\t\tobj.SetMapIndex(key, val)\n", New: ""},
+			{Name: "map-shift-int-arm-reads-unsigned", File: "fast/place_shifts.go", Old: "result := mapIndexInt(lhs, key)", New: "result := mapIndexUint(lhs, key)", Nth: 1},
+			{Name: "map-quo-reads-missing-key", File: "fast/place_shifts.go", Old: "result := mapIndexInt(lhs, key)\n\n\t\t\t\t\tif result < 0 {", New: "result := lhs.MapIndex(key).Int()\n\n\t\t\t\t\tif result < 0 {"},
 			{Name: "uint16-xor-depth2-uses-depth1", File: "fast/var_ops.go", Old: "*(*uint16)(unsafe.Pointer(&env.\n\t\t\t\t\t\tOuter.Outer.Ints[index])) ^= fun(env)", New: "*(*uint16)(unsafe.Pointer(&env.\n\t\t\t\t\t\tOuter.Ints[index])) ^= fun(env)", Canary: true},
 			{Name: "sub-becomes-add-boxed-int", File: "fast/var_ops.go", Old: "lhs.SetInt(lhs.Int() - int64(val))", New: "lhs.SetInt(lhs.Int() + int64(val))", Nth: 1, Canary: true},
 			{Name: "ip-not-advanced", File: "fast/var_set.go", Old: "= val\n\n\t\t\t\t\t\tenv.IP++\n\t\t\t\t\t\treturn env.Code[env.IP], env", New: "= val\n\n\t\t\t\t\t\treturn env.Code[env.IP], env", Nth: 1},
@@ -151,6 +159,7 @@ func init() {
 			"N2 every interpreted function body runs on a frame from newEnv4Func; N1 every frame obtained with newEnv4Func is released with freeEnv4Func on the same variable in the same block, with no return in between and no slot access after release; Q1 every pointer &E.Ints[i] that leaves its expression is preceded by E.IntAddressTaken = true on the same frame; " +
 			"FE1 freeEnv returns early for UsedByClosure frames and drops Ints of IntAddressTaken frames before pooling; O1/O2 Run.Pool, Run.PoolSize and Env.UsedByClosure are written only by the allocator / MarkUsedByClosure; " +
 			"U sibling uniformity and A3 depth of the fetched function variable and A2 accessor category over the call*ret*/func*ret* specialisations (argument i stored to slot i with the storage of its kind, result read from the result slot). " +
+			"V2 the call closures that cache the converted function of a file-level symbol, keyed on the identity of the xreflect.Value in its slot, obtain the symbol through a function that excludes assignable bindings (found F39: a file-level `var f func()` assigned again kept calling the old function); R2 `return` with several named results evaluates and detaches every expression before it sets any result (found F38: `return b, a`). " +
 			"Not decided: variadic packing, multiple results through reflect, recursion depth, that UsedByClosure is sufficient for every escape route (method values).",
 		Assumptions: []string{"a frame is reachable after its call only through closures created in literals over it or through &Ints pointers", "reflect.MakeFunc / ValueOf retain the closure they are given"},
 		Rules: []func(*Ctx){func(c *Ctx) {
@@ -165,6 +174,8 @@ func init() {
 			ruleUniformity2D(c, "fast", c06Files, "U2-sibling-functions")
 			ruleDepth(c, "fast", c06Files, "A3-depth", "A4-storage")
 			ruleAccessorFiles(c, "fast", c06Files, "A2-accessor")
+			ruleCacheKeys(c, "V2-cache-keys")
+			ruleReturnParallel(c, "R2-return-parallel")
 			c.Floor("M1-mark-before-escape", 370)
 			c.Floor("N1-new-free", 370)
 			c.Floor("Q1-interior-pointer", 60)
@@ -175,6 +186,10 @@ func init() {
 			{Name: "mark-dropped-uint8-bool", File: "fast/func1ret1.go", Old: "\n\t\t\t\tenv.MarkUsedByClosure()\n\t\t\t\treturn xr.ValueOf(func(arg0 uint8,\n\n\t\t\t\t) (ret0 bool,", New: "\n\t\t\t\treturn xr.ValueOf(func(arg0 uint8,\n\n\t\t\t\t) (ret0 bool,", Canary: true},
 			{Name: "free-dropped", File: "fast/func0ret1.go", Old: "env.freeEnv4Func()", New: "_ = env", Nth: 3, Canary: true},
 			{Name: "intaddress-mark-before-walk", File: "fast/address.go", Old: "\t\t\t\t\tfor i := 3; i < upn; i++ {\n\t\t\t\t\t\tenv = env.Outer\n\t\t\t\t\t}\n\n\t\t\t\t\tenv.IntAddressTaken = true\n\t\t\t\t\treturn (*float64)", New: "\t\t\t\t\tenv.IntAddressTaken = true\n\t\t\t\t\tfor i := 3; i < upn; i++ {\n\t\t\t\t\t\tenv = env.Outer\n\t\t\t\t\t}\n\n\t\t\t\t\treturn (*float64)"},
+			{Name: "call-cache-for-file-level-variables", File: "fast/call.go", Old: "if sym != nil && sym.Upn == maxdepth-1 && sym.Desc.Class() != FuncBind {\n\t\treturn nil\n\t}", New: "_ = maxdepth"},
+			{Name: "one-call-compiler-bypasses-the-gate", File: "fast/call1ret1.go", Old: "funsym := call.funSym(maxdepth)", New: "funsym := call.Fun.Sym"},
+			{Name: "return-named-results-sequential", File: "fast/statement.go", Old: "\tif n > 1 && cinfo.NamedResults {", New: "\tif n > 2 && cinfo.NamedResults {"},
+			{Name: "return-parallel-not-detached", File: "fast/statement.go", Old: "\t\t\tvals[i] = dup(fun(env))\n\t\t}\n\t\tfor i, assign := range assigns {", New: "\t\t\tvals[i] = fun(env)\n\t\t}\n\t\tfor i, assign := range assigns {"},
 			{Name: "call0ret1-string-depth2", File: "fast/call0ret1.go", Old: "fun := env.Outer.Outer.Vals[funindex].Interface().(func() string)", New: "fun := env.Outer.Vals[funindex].Interface().(func() string)"},
 			{Name: "freeenv-ignores-closure-flag", File: "fast/compile.go", Old: "\tif env.UsedByClosure {\n\t\t// output.Debugf(\"freeEnv: used by closure, cannot reuse: %p %+v\", env, env)\n\t\treturn\n\t}", New: "\tif env.UsedByClosure && env.Outer == nil {\n\t\treturn\n\t}"},
 			{Name: "bool-result-read-from-arg-slot", File: "fast/func1ret1.go", Old: "ret0 = *(*bool)(unsafe.Pointer(&env.Ints[indexes[1]]))", New: "ret0 = *(*bool)(unsafe.Pointer(&env.Ints[indexes[0]]))", Nth: 9},
@@ -412,12 +427,14 @@ func init() {
 		Explanation: "Decided: X4 in callRecover the panic value is read and consumed only after three early returns (not directly inside a deferred call; no panic in progress; the deferred call belongs to another frame than the panicking one), each a disjunct of its condition, and a successful recover clears Panic and PanicFun; " +
 			"X5 rundefer runs the deferred function between pushDefer and a popDefer registered with Go's defer and re-raises through maybeRepanic only while panicking; every installed function is taken from run.InstallDefer once and registered with Go's own defer (LIFO order and execution during panics are then Go's); Comp.Defer evaluates the function value and arguments when the statement executes, copies them when settable, never inside the installed closure; code with defer selects the flag-aware executor; " +
 			"X6 pushDefer/popDefer save and restore DeferOfFun and the defer flag position by position; O ownership of Run.PanicFun/Panic/DeferOfFun/InstallDefer; S1 statement protocol of the defer/return statements. " +
+			"E3 the function value and the arguments of a defer statement, evaluated when the statement runs, are detached from the variables they were read from (a settable value is replaced by a copy) before they are kept for the later call. " +
 			"Not decided: event-by-event order for nested panics, modification of named results.",
 		Assumptions: []string{"Go's own defer/recover for the closures registered with defer", "reflect.Value.Call"},
 		Rules: []func(*Ctx){func(c *Ctx) {
 			ruleRecoverGuards(c, "X4-recover-guards")
 			ruleDeferProtocol(c, "X5-defer-protocol")
 			ruleSaveRestore(c, "X6-save-restore")
+			ruleDetachedOperands(c, "E3-detached-operands", "fast.Comp.Defer")
 			runStateOwnership(c)
 			ruleStmtProtocol(c, "fast", []string{"statement.go", "code.go", "builtin.go"}, "S1-stmt-protocol")
 		}},
@@ -507,12 +524,14 @@ func init() {
 		Title: "Interpreted goroutines and channels behave as Go permits on every schedule",
 		Explanation: "Decided (the race-freedom clause for the interpreter's own shared state, a necessary condition on every schedule): X1 lock set on IrGlobals.gls; X2 SpinLock; X3 Comp.Go evaluates the function value and the arguments in the caller's goroutine before the go statement, the goroutine creates, registers and unregisters (by defer) its own Run record, and newEnv4Func never touches another goroutine's frame pool; " +
 			"U sibling uniformity, S1 statement protocol and A2 accessor category over the channel specialisations (Send, Recv, select) in channel.go / select.go. " +
+			"E3 the function value and the arguments of a go statement are detached from the variables they were read from before the goroutine starts (found F37: `go f(p); p.a = 50` let the goroutine see 50). " +
 			"Not decided: every schedule-dependent outcome, races inside user data, channel semantics (delegated to reflect.Send/Recv/Select).",
 		Assumptions: []string{"reflect.Value.Send/Recv/Select implement Go's channel semantics", "sync/atomic semantics"},
 		Rules: []func(*Ctx){func(c *Ctx) {
 			ruleLockSet(c, "fast", "IrGlobals", "gls", "lock", "X1-lock-set")
 			ruleSpinLock(c, "X2-spinlock")
 			ruleGoidGate(c, "X3-goid-gate")
+			ruleDetachedOperands(c, "E3-detached-operands", "fast.Comp.Go")
 			ruleUniformity(c, "fast", []string{"channel.go", "select.go"}, "U-uniform")
 			ruleStmtProtocol(c, "fast", []string{"channel.go", "select.go", "statement.go"}, "S1-stmt-protocol")
 			ruleAccessorFiles(c, "fast", []string{"channel.go", "select.go"}, "A2-accessor")
@@ -520,6 +539,7 @@ func init() {
 		}},
 		Mutants: []Mutant{
 			{Name: "go-args-evaluated-in-goroutine", File: "fast/statement.go", Old: "\t\t\tfunv.Call(argv)\n\t\t}()", New: "\t\t\tfunv.Call(append(argv[:0:0], exprfun(env2)))\n\t\t}()", Canary: true},
+			{Name: "go-argument-aliases-variable", File: "fast/statement.go", Old: "\t\t\tv := argfun(env2)\n\t\t\tif v.CanSet() {\n\t\t\t\tv = v.Convert(v.Type()) // make a copy\n\t\t\t}\n\t\t\targv[i] = v\n", New: "\t\t\targv[i] = argfun(env2)\n"},
 			{Name: "gls-delete-unlocked", File: "fast/compile.go", Old: "\tg.lock.Lock()\n\tdelete(g.gls, goid)\n\tg.lock.Unlock()\n", New: "\tdelete(g.gls, goid)\n", Canary: true},
 			{Name: "send-int16-uses-other-channel-type", File: "fast/channel.go", Old: "(chan<- int16)", New: "(chan<- int32)", Nth: 1},
 		},
@@ -532,7 +552,7 @@ func init() {
 		Title: "Statement control flow is executed exactly as in Go",
 		Explanation: "Decided: S1 every one of the ~3 800 statement closures of package fast returns Code[IP] of the environment it returns after exactly one advance of IP (or Code[t] after IP = t) on every path — an IP that is not advanced, or a statement taken from another frame than the one returned, is the generic control-flow bug; " +
 			"J1 in jumpOut and every other depth-specialised jump the frame whose IP is set and whose code is indexed is the one the arm names; J2 break/continue/goto stop at the enclosing function, count the frames to leave after each level and pass the count to jumpOut (D3: the compiler-chain walk advances one link per iteration); " +
-			"J3 every late-bound jump target (jump.Cond/Post/Break/..., LoopInfo.Break/Continue) is assigned a code position on every path to the end of its compile function; J4 Comp.Stmt has a case for every statement node of go/ast; U sibling uniformity of the kind-specialised switch / range / select closures (including the arms that are alone in their category, compared modulo storage class); A3 a statement closure that walks Outer links in a counted loop up to the frame of a variable (the count derived from the variable's Upn) accesses that variable's slot on the frame it reached, never on the current one (found F32 in rangeString); G1 the places a for-range statement assigns to (returned by rangeVars) are only tested and assigned with SetPlace(p, ASSIGN, ...), never read, updated in place or re-bound to the loop's own counter, and each assignment is emitted after jump.Start and after an exit test (a statement that can jump to jump.Break) on every path, a direct store being in the continuing branch of that test (found F29, F33); G2 each iteration of a range over a string decodes the first rune of s[offset:] with utf8.DecodeRuneInString and advances the offset by the width it returned; J2 also: the scope of the function body itself is searched for a break / goto target before the search stops (found F31; a continue target always has a scope of its own, clause continue-owner); J5 HasLabel's bisection is a membership test (slice[i] == key) and every ThisLabels slice was sorted before it was installed; S2 the closed-channel flag of a select receive is the recvOK result of reflect.Select kept in a slot of its own and read by both two-valued receive forms (found F30); S3 each select clause compiler ends with the jump to the select's Break target in the same frame. " +
+			"J3 every late-bound jump target (jump.Cond/Post/Break/..., LoopInfo.Break/Continue) is assigned a code position on every path to the end of its compile function; J4 Comp.Stmt has a case for every statement node of go/ast; U sibling uniformity of the kind-specialised switch / range / select closures (including the arms that are alone in their category, compared modulo storage class); A3 a statement closure that walks Outer links in a counted loop up to the frame of a variable (the count derived from the variable's Upn) accesses that variable's slot on the frame it reached, never on the current one (found F32 in rangeString); G1 the places a for-range statement assigns to (returned by rangeVars) are only tested and assigned with SetPlace(p, ASSIGN, ...), never read, updated in place or re-bound to the loop's own counter, and each assignment is emitted after jump.Start and after an exit test (a statement that can jump to jump.Break) on every path, a direct store being in the continuing branch of that test (found F29, F33); G2 each iteration of a range over a string decodes the first rune of s[offset:] with utf8.DecodeRuneInString and advances the offset by the width it returned; J2 also: the scope of the function body itself is searched for a break / goto target before the search stops (found F31; a continue target always has a scope of its own, clause continue-owner); J5 HasLabel's bisection is a membership test (slice[i] == key) and every ThisLabels slice was sorted before it was installed; S2 the closed-channel flag of a select receive is the recvOK result of reflect.Select kept in a slot of its own and read by both two-valued receive forms (found F30); S3 each select clause compiler ends with the jump to the select's Break target in the same frame; S4 expression switch: the direct-dispatch table (GotoMap) receives a constant only while every earlier case expression was constant (monotone flag, single writer), the table builders read GotoMap and never ConstMap, the jump into default is emitted after all clauses and a default reached in sequence skips its body, every clause header is exactly one statement slot and fallthrough advances by that slot plus one, and a case body ends with fallthrough exactly when its last statement is one, else with the jump to Break in the same frame. " +
 			"Not decided: the sequence of executed statements as such (switch dispatch optimisations, fallthrough, range and select semantics).",
 		Assumptions: []string{"the executor runs the statement returned by the previous one (C13 rules)"},
 		Rules: []func(*Ctx){func(c *Ctx) {
@@ -547,6 +567,8 @@ func init() {
 			ruleRangePlaces(c, "G1-range-places")
 			ruleSelectRecvOK(c, "S2-select-recvok")
 			ruleSelectClauseExit(c, "S3-select-clause-exit")
+			ruleSwitchDispatch(c, "S4-switch-dispatch")
+			ruleReturnParallel(c, "R2-return-parallel")
 			ruleLabelMembership(c, "J5-labels")
 			ruleRangeStringDecode(c, "G2-range-string-decode")
 			c.Floor("G1-range-places", 8)
@@ -561,6 +583,10 @@ func init() {
 			{Name: "goto-skips-function-scope", File: "fast/statement.go", Old: "\tfor o := c; o != nil; o = o.Outer {\n\t\tif ip := o.Labels[label]; ip != nil {", New: "\tfor o := c; o != nil && o.Func == nil; o = o.Outer {\n\t\tif ip := o.Labels[label]; ip != nil {"},
 			{Name: "break-counts-function-frame", File: "fast/statement.go", Old: "\t\tif o.Func != nil {\n\t\t\t// do not cross function boundaries: the function body itself was the last scope to search\n\t\t\tbreak\n\t\t}\n\t\tupn += o.UpCost // count how many Env:s we must exit at runtime\n", New: "\t\tupn += o.UpCost // count how many Env:s we must exit at runtime\n\t\tif o.Func != nil {\n\t\t\tbreak\n\t\t}\n", Nth: 1},
 			{Name: "select-ok-from-received-value", File: "fast/select.go", Old: "\t\t\t\tidx := bindok.Desc.Index()\n\t\t\t\tc.SetPlace(", New: "\t\t\t\tidx := bind.Desc.Index()\n\t\t\t\tc.SetPlace("},
+			{Name: "switch-gotomap-after-nonconstant-case", File: "fast/switch.go", Old: "\tif seen.AllConst {\n\t\tseen.GotoMap[val] = entry\n\t}", New: "\tseen.GotoMap[val] = entry"},
+			{Name: "switch-table-from-all-constants", File: "fast/switch2.go", Old: "\t\t\tfor k, v := range seen.GotoMap {\n\t\t\t\tm[int(xr.ValueOf(k).Int())] = v.IP", New: "\t\t\tfor k, v := range seen.ConstMap {\n\t\t\t\tm[int(xr.ValueOf(k).Int())] = v.IP"},
+			{Name: "fallthrough-lands-on-next-header", File: "fast/switch.go", Old: "env.IP += 2 // +2 to skip", New: "env.IP += 1 // +2 to skip"},
+			{Name: "switch-default-body-not-skipped", File: "fast/switch.go", Old: "\t\tip := iend\n\t\tenv.IP = ip\n\t\treturn env.Code[ip], env\n\t}, node.Pos())\n\tc.switchCaseBody(node.Body, canfallthrough)", New: "\t\tip := env.IP + 1\n\t\tenv.IP = ip\n\t\treturn env.Code[ip], env\n\t}, node.Pos())\n\tc.switchCaseBody(node.Body, canfallthrough)"},
 			{Name: "haslabel-without-equality", File: "fast/global.go", Old: "return i >= 0 && i < len(l.ThisLabels) && l.ThisLabels[i] == label", New: "return i >= 0 && i < len(l.ThisLabels)"},
 			{Name: "select-labels-unsorted", File: "fast/select.go", Old: "\tsort.Strings(labels)\n", New: "\tsort.Sort(sort.Reverse(sort.StringSlice(labels)))\n"},
 			{Name: "select-default-falls-into-next-clause", File: "fast/select.go", Old: "\t\tc.List(node.Body)\n\t}\n\tc.jumpOut(0, c.Loop.Break)\n", New: "\t\tc.List(node.Body)\n\t}\n"},
@@ -581,6 +607,7 @@ func init() {
 		Title: "A failed evaluation leaves earlier definitions intact",
 		Explanation: "Decided: T1 transactional publication: in every declaration compiler (Decl*, methodDecl, Import) that writes the compiler's persistent registry (NewBind / NewFuncBind / methodAdd with a real name, stores into Binds or Types), either no step that can still fail follows the write (failure reachability computed over the statically resolved call graph: a function can fail if it reaches panic), or a rollback registered with defer before the write restores the previous definition while a flag is still armed and the flag is cleared on the normal path; " +
 			"T2 compile precedes run: ParseEvalPrint / Eval compile the whole input before RunExpr. " +
+			"For methods the rollback re-publishes the saved method type through the same registry call and stores the saved function value back (F6, fixed). " +
 			"Not decided: the redefinition sentence (old variables keep their type and readability), which depends on named-type identity in xreflect.",
 		Assumptions: []string{"calls through interfaces and function values are not followed by the failure-reachability analysis"},
 		Rules: []func(*Ctx){func(c *Ctx) {
@@ -591,7 +618,9 @@ func init() {
 			{Name: "declvar-rollback-removed", File: "fast/declaration.go", Old: "\t\t} else if oldbind != nil {\n\t\t\tc.Binds[name] = oldbind\n\t\t} else {\n\t\t\tdelete(c.Binds, name)\n\t\t}\n\t}()\n\tbind := c.NewBind(name, VarBind, t)", New: "\t\t}\n\t\t_ = oldbind\n\t}()\n\tbind := c.NewBind(name, VarBind, t)"},
 			{Name: "declfunc-rollback-removed", File: "fast/function.go", Old: "\t\t} else if oldbind != nil {\n\t\t\tc.Binds[funcname] = oldbind\n\t\t} else {\n\t\t\tdelete(c.Binds, funcname)\n\t\t}", New: "\t\t}\n\t\t_ = oldbind", Canary: true},
 			{Name: "declconst-publishes-before-conversion", File: "fast/declaration.go", Old: "\tlit := Lit{Type: valueType, Value: value}\n\tif t == nil {\n\t\tt = lit.Type\n\t} else {\n\t\tvalue = lit.ConstTo(t)\n\t}\n\tbind := c.NewBind(name, ConstBind, t)\n", New: "\tlit := Lit{Type: valueType, Value: value}\n\tbind := c.NewBind(name, ConstBind, t)\n\tif t == nil {\n\t\tt = lit.Type\n\t} else {\n\t\tvalue = lit.ConstTo(t)\n\t}\n", Canary: true},
-			{Name: "declfunc-flag-never-cleared", File: "fast/function.go", Old: "\tc.Append(stmt, funcdecl.Pos())\n\tpanicking = false\n", New: "\tc.Append(stmt, funcdecl.Pos())\n"},
+			{Name: "declfunc-flag-never-cleared", File: "fast/function.go", Old: "\tc.Append(stmt, funcdecl.Pos())\n\tpanicking = false\n", New: "\tc.Append(stmt, funcdecl.Pos())\n", Nth: 1},
+			{Name: "method-rollback-restores-type-only", File: "fast/function.go", Old: "\t\t\tindex := trecv.AddMethod(funcdecl.Name.Name, oldtype)\n\t\t\t(*trecv.GetMethods())[index] = oldfun\n", New: "\t\t\ttrecv.AddMethod(funcdecl.Name.Name, oldtype)\n\t\t\t_ = oldfun\n"},
+			{Name: "method-rollback-removed", File: "fast/function.go", Old: "\t\tif panicking && oldtype != nil {\n", New: "\t\tif false && panicking && oldtype != nil {\n"},
 		},
 	})
 }
